@@ -135,6 +135,19 @@ def make_case(rng, r):
             while p == list(range(nsrc)):
                 r.shuffle(p)
             est = est[p]
+    if r.random() < 0.15:
+        # integer PCM (as read from a wav file) incl. negative full scale
+        dt = r.choice([np.int16, np.int16, np.uint8, np.int32])
+        if dt == np.uint8:
+            ref = np.clip(np.round(ref * 40 + 128), 0, 255).astype(dt)
+            est = np.clip(np.round(est * 40 + 128), 0, 255).astype(dt)
+        else:
+            ref = np.clip(np.round(ref * 9000), -32768, 32767).astype(dt)
+            est = np.clip(np.round(est * 9000), -32768, 32767).astype(dt)
+            ref.flat[0] = -32768
+        if kind == "perfect":
+            est = ref.copy()
+        kind += "/" + np.dtype(dt).name
     return {"ref": ref, "est": est, "nsrc": nsrc, "nchan": nchan, "L": L, "kind": kind}
 
 
@@ -185,7 +198,7 @@ def run_case(ctx, mods, cap, cs, r):
     _perm_check(ctx, cap, nsrc, perm, fn, case, images)
     nontrivial = nsrc >= 2 and perm.astype(int).tolist() != list(range(nsrc))
     # perfect estimate
-    if cs["kind"] == "perfect":
+    if cs["kind"].startswith("perfect"):
         ctx.count("relation.perfect")
         if perm.astype(int).tolist() != list(range(nsrc)) or np.any(metrics[0] < 60):
             ctx.violation("C19/separation.%s/perfect-estimate" % fn, "perfect-estimate",
@@ -195,7 +208,7 @@ def run_case(ctx, mods, cap, cs, r):
     c = r.choice([2.0, -1.0, 0.5, -3.0, 10.0])
     j = r.randrange(nsrc)
     for side in ("est", "ref"):
-        a, b = ref.copy(), est.copy()
+        a, b = ref.astype(float), est.astype(float)
         (b if side == "est" else a)[j] *= c
         res2 = f(a, b)
         ctx.ev()
